@@ -15,6 +15,7 @@ from worlds.base import WorldBase, Ent, SimulatedFailure, enc, dec, call
 FMTS = ['zip_pickle', 'zip_csv', 'zip_tsv', 'sqlite']
 EXT = {'zip_pickle': '.zip', 'zip_csv': '.zip', 'zip_tsv': '.zip', 'sqlite': '.sqlite'}
 LABELS = ['fa', 'fb', 'fc', 'fd', 'fe', 'ff']
+LABELS_EXT = ['fa.csv', 'fb.txt', 'fc.pickle', 'fd.csv.bak', 'fe', 'ff']  # labels that contain a store member extension
 STRS = ['ab', 'cd', 'ef', 'gh', 'xy', 'zw']
 ROWL = ['p', 'q', 'r', 's']
 COLL = ['A', 'B', 'C', 'D']
@@ -153,7 +154,8 @@ class StoreWorld(WorldBase):
         n = ch.randint(1, 6)
         fmt = ch.weighted([('zip_pickle', 4), ('zip_csv', 2), ('zip_tsv', 2), ('sqlite', 2)])
         cfgmap = fmt != 'zip_pickle' and ch.chance(0.5)
-        labels = LABELS[:n] if ch.chance(0.5) else ch.sample(LABELS, n)
+        pool = LABELS_EXT if (fmt != 'sqlite' and ch.chance(0.15)) else LABELS
+        labels = pool[:n] if ch.chance(0.5) else ch.sample(pool, n)
         frames = []
         for lab in labels:
             idepth = ch.choice([1, 1, 2]) if (cfgmap or fmt == 'zip_pickle') else 1
